@@ -317,6 +317,8 @@ class Renderer:
                     imports.add("import datetime")
                 if "math." in body[-1]:
                     imports.add("import math")
+                if "pathlib." in body[-1]:
+                    imports.add("import pathlib")
         if self.variant.get("unrel") and mod == self.spec["modules"][-1]:
             body.append("UNRELATED_VAR = %d" % self.variant["unrel"])
         for idx, f in enumerate(fs):
